@@ -36,3 +36,57 @@ Proof.
   pose proof (fchecks3_static c xs h) as S. unfold fchecks3 in *.
   destruct (run_checks _ _ _ _ _ _ _ _ c h xs) as [[[a b] o] ex]. destruct S as [Sm So]. intro E. apply B; assumption.
 Qed.
+
+(* ---- unconditional lock-step: with the quantiser's code proved non-zero (QuantFloatNz_proofs) no evaluated flag is left ---- *)
+From Flocq Require Import Core.Core IEEE754.Binary IEEE754.Bits.
+From Coq Require Import Reals.
+Require Import SZV.Proofs.QuantFloatNz_proofs.
+
+Definition ctx_ok2 (c:fctx) : Prop := 1 <= fradius c /\ 2 * fradius c < 2 ^ 24 /\ (0 <= B2R 24 128 (frecip c))%R.
+
+Theorem fchecks2_nz c : ctx_ok2 (fc c) -> forall xs h, let '(nz, _, _, _) := fchecks2 c h xs in nz = true.
+Proof.
+  intros (H1 & H2 & H3). unfold fchecks2. induction xs as [|x xs IH]; intro h; cbn [run_checks]; [reflexivity|].
+  destruct (fquant2 c h (fpred2 c h) x) as [[q r]|] eqn:Q.
+  - specialize (IH (r :: h)). destruct (run_checks _ _ _ _ _ _ _ _ c (r :: h) xs) as [[[a b] o] ex].
+    pose proof (fquant2_nonzero _ _ _ _ _ _ H1 H2 H3 Q) as N. apply Z.eqb_neq in N. rewrite N. exact IH.
+  - specialize (IH (fexact2 c x :: h)). destruct (run_checks _ _ _ _ _ _ _ _ c (fexact2 c x :: h) xs) as [[[a b] o] ex]. exact IH.
+Qed.
+Theorem fchecks3_nz c : ctx_ok2 (fc (f2 c)) -> forall xs h, let '(nz, _, _, _) := fchecks3 c h xs in nz = true.
+Proof.
+  intros (H1 & H2 & H3). unfold fchecks3. induction xs as [|x xs IH]; intro h; cbn [run_checks]; [reflexivity|].
+  destruct (fquant3 c h (fpred3 c h) x) as [[q r]|] eqn:Q.
+  - specialize (IH (r :: h)). destruct (run_checks _ _ _ _ _ _ _ _ c (r :: h) xs) as [[[a b] o] ex].
+    pose proof (fquant2_nonzero _ _ _ _ _ _ H1 H2 H3 Q) as N. apply Z.eqb_neq in N. rewrite N. exact IH.
+  - specialize (IH (fexact3 c x :: h)). destruct (run_checks _ _ _ _ _ _ _ _ c (fexact3 c x :: h) xs) as [[[a b] o] ex]. exact IH.
+Qed.
+
+Theorem f2d_lockstep_all c xs h : ctx_ok2 (fc c) -> let '(qs, es, rs) := fenc2 c h xs in fdec2 c h qs es = Some rs.
+Proof.
+  intro K. pose proof (f2d_lockstep c xs h) as L. pose proof (fchecks2_nz c K xs h) as N.
+  destruct (fchecks2 c h xs) as [[[nz mir] o] ex]. apply L, N.
+Qed.
+Theorem f3d_lockstep_all c xs h : ctx_ok2 (fc (f2 c)) -> let '(qs, es, rs) := fenc3 c h xs in fdec3 c h qs es = Some rs.
+Proof.
+  intro K. pose proof (f3d_lockstep c xs h) as L. pose proof (fchecks3_nz c K xs h) as N.
+  destruct (fchecks3 c h xs) as [[[nz mir] o] ex]. apply L, N.
+Qed.
+
+(* the context hypothesis, decidably: a context built for a positive bound and a usual interval count meets it *)
+Lemma fle_zero_nonneg (r:f32) : fle f32_zero r = true -> (0 <= B2R 24 128 r)%R.
+Proof.
+  unfold fle, b32_compare. destruct r as [sa|sa|sa pl pf|sa ma ea pf].
+  - intros _. simpl. apply Rle_refl.
+  - intros _. simpl. apply Rle_refl.
+  - intros _. simpl. apply Rle_refl.
+  - intro H. rewrite Bcompare_correct in H by reflexivity.
+    change (B2R 24 128 f32_zero) with 0%R in H.
+    destruct (Rcompare_spec 0 (B2R 24 128 (B754_finite 24 128 sa ma ea pf))) as [A|A|A]; try discriminate H.
+    + apply Rlt_le, A.
+    + rewrite <- A. apply Rle_refl.
+Qed.
+Lemma ctx_ok2b_ok c : ctx_ok2b c = true -> ctx_ok2 c.
+Proof.
+  unfold ctx_ok2b, ctx_ok2. intro H. apply andb_true_iff in H as [H H3]. apply andb_true_iff in H as [H1 H2].
+  apply Z.leb_le in H1. apply Z.ltb_lt in H2. repeat split; try assumption. apply fle_zero_nonneg, H3.
+Qed.
